@@ -201,15 +201,18 @@ class _Rx:
         S._unsupported("regex model: anchor %s" % code)
 
     # ---- position-set simulation: {end position: condition} -----------------------------------
-    def ends(self, data, starts, items=None):
+    @staticmethod
+    def seq_key(data):
+        return tuple(e if isinstance(e, int) else ("z", e.z.get_id()) for e in data)
+
+    def ends(self, data, starts, items=None, data_key=None):
         """starts: {pos: cond}.  Returns {pos: cond}: the pattern (sequence ``items``) can match
         data[s:pos] for a start s with cond(s).  Boolean acceptance only (no priorities).
         Top-level calls from a single unconditional start are cached across paths (z3 constants of
         equal name are the same term, so the formula of an equal sequence is the same formula)."""
         key = None
         if items is None and len(starts) == 1 and next(iter(starts.values())) is True:
-            key = (self.text, self.flags, next(iter(starts)),
-                   tuple(e if isinstance(e, int) else ("z", e.z.get_id()) for e in data))
+            key = (self.text, self.flags, next(iter(starts)), data_key if data_key is not None else self.seq_key(data))
             hit = _ENDS_CACHE.get(key)
             if hit is not None:
                 return dict(hit[0])
@@ -452,8 +455,9 @@ def k1a_language(ctx):
     rx = _Rx(m.MBOX_FROM_PATTERN)
     wf = _Rx(WF_SEPARATOR)
     gap_seen = False
+    dk = rx.seq_key(data)
     for i in range(n + 1):
-        E = rx.ends(data, {i: True})
+        E = rx.ends(data, {i: True}, data_key=dk)
         for j, c in sorted(E.items()):
             if c is False:
                 continue
@@ -470,9 +474,9 @@ def k1a_language(ctx):
             ctx.require(_not(_and(_zbool(c), _zbool(_starts(data, a, b">From ")))),
                         "match-inside-escaped-line", line=spans.index((a, b, e)))
     for k, (a, b, e) in enumerate(spans):
-        E = rx.ends(data, {a: True})
+        E = rx.ends(data, {a: True}, data_key=dk)
         code = _zbool(E.get(e, False))
-        W = wf.ends(data, {a: True}).get(e, False)
+        W = wf.ends(data, {a: True}, data_key=dk).get(e, False)
         if W is not False:
             ctx.require(z3.Implies(_zbool(W), code), "rfc4155-separator-not-matched", line=k)
         # information: a line that begins with "From " (a separator in the loose mboxo reading, and
@@ -564,10 +568,11 @@ class _SymPattern:
             S._unsupported("pattern stand-in: finditer(pos)")
         seq = data.e if isinstance(data, _MBytes) else list(data)
         out, pos, n = [], 0, len(seq)
+        dk = self.rx.seq_key(seq)
         while pos <= n:
             hit = None
             for i in range(pos, n + 1):
-                E = self.rx.ends(seq, {i: True})
+                E = self.rx.ends(seq, {i: True}, data_key=dk)
                 true_ends = [j for j, c in sorted(E.items()) if _truth(c)]
                 if len(true_ends) > 1:
                     S._unsupported("pattern stand-in: several match ends from one start (priorities not modelled)")
@@ -590,10 +595,18 @@ def k1b_split(ctx):
     K = ctx.params["K"]
     first = ctx.params.get("first")
     lens = []
-    nl = K if ctx.params.get("exact") else 1 + ctx.choice("n_lines_minus_1", K)
+    second = ctx.params.get("second")
+    if ctx.params.get("exact"):
+        nl = K
+    elif second is not None:
+        nl = 2 + ctx.choice("n_lines_minus_2", K - 1)
+    else:
+        nl = 1 + ctx.choice("n_lines_minus_1", K)
     for k in range(nl):
         if k == 0 and first is not None:
             lens.append(first)
+        elif k == 1 and second is not None:
+            lens.append(second)
         else:
             lens.append(lens_menu[ctx.choice(f"len{k}", len(lens_menu))])
     last_open = ctx.flag("last_line_unterminated")
@@ -622,9 +635,10 @@ def k1b_split(ctx):
     else:
         wfx = _Rx(WF_SEPARATOR)
         sym_sep = []
+        dk = wfx.seq_key(data)
         for a, b, e in spans:
             fr = _starts(data, a, FROM_)
-            wf = wfx.ends(data, {a: True}).get(e, False) if e > b else False
+            wf = wfx.ends(data, {a: True}, data_key=dk).get(e, False) if e > b else False
             if not loose and fr is not False:
                 # (always satisfiable together with everything assumed before: lines are independent;
                 # added without the engine's feasibility check)
@@ -679,7 +693,15 @@ def _k1b_parts(tier):
         menu, K = [0, 1, 6, WF_MIN, WF_MIN + 1], 3
     else:
         menu, K = [0, 1, 2, 6, 12, WF_MIN, WF_MIN + 1, WF_MIN + 2], 4
-    return [{"menu": menu, "K": K, "first": f} for f in menu]
+    parts = []
+    for f in menu:
+        if f < WF_MIN:
+            parts.append({"menu": menu, "K": K, "first": f})
+        else:
+            # (the long lines are the expensive ones: one part per second line as well)
+            parts.append({"menu": menu, "K": 1, "first": f, "exact": True})
+            parts += [{"menu": menu, "K": K, "first": f, "second": s2} for s2 in menu]
+    return parts
 
 
 def _k1_targets():
@@ -791,7 +813,16 @@ def k2_routing(ctx):
     mime_lens = ctx.params["mime_lens"]
     log = []
     reg = _fake_registry(ctx, r, log)
-    mime = c07.MimeStub(ctx, r)
+    class _Mime(c07.MimeStub):
+        """C07's arbitrary MIME database; a concrete name with a documented extension gets the answer None
+        without a decision (C07/K1 shows the answer cannot matter for it)"""
+
+        def guess_type(self, arg, strict=True):
+            conc = arg if isinstance(arg, str) else arg.concrete()
+            if conc is not None and c07._spec_expected(conc, None) is not None:
+                return (None, None)
+            return c07.MimeStub.guess_type(self, arg, strict)
+    mime = _Mime(ctx, r)
     mime.classes = [None, "application/pdf", "x-unknown/type"]
     if ctx.concrete:
         cm_r = ctx.stub(r, mimetypes=mime, _EXTRACTOR_REGISTRY=reg)
@@ -898,8 +929,9 @@ def _k2_parts(tier):
         for n in range(0, 5):
             parts += sym(n, [0, 15, 24], 4)
         parts += sym(5, [15], 4)
-        parts += [{"name_len": None, "mime_lens": [9, 24], "n_att": 1, "behaviours": 6},
-                  {"name_len": None, "mime_lens": [15], "n_att": 2, "behaviours": [4, 2], "vocab": 3}]
+        parts += [{"name_len": None, "mime_lens": [9, 24], "n_att": 1, "behaviours": 6}]
+        parts += [{"name_len": None, "mime_lens": [15], "n_att": 2, "behaviours": [4, 2], "vocab": 3, "first_vocab": v}
+                  for v in range(3)]
     else:
         parts = []
         for n in range(0, 8):
@@ -919,23 +951,801 @@ def _k2_targets():
             r._file_type_from_extension, r._get_extractor]
 
 
+
+# =======================================================================================
+# K3r  MSG recipient strings
+# =======================================================================================
+class _ReMatch:
+    def __init__(self, string, a, b, groups):
+        self.string, self._a, self._b, self._g = string, a, b, groups
+
+    def _span(self, g):
+        if g == 0:
+            return self._a, self._b
+        return self._g.get(g, (-1, -1))
+
+    def start(self, g=0):
+        return self._span(g)[0]
+
+    def end(self, g=0):
+        return self._span(g)[1]
+
+    def span(self, g=0):
+        return self._span(g)
+
+    def group(self, g=0):
+        a, b = self._span(g)
+        return None if a < 0 else self.string[a:b]
+
+
+class _ReModel:
+    """the name ``re`` as seen from the lifted functions: search / split of a pattern given as text,
+    interpreted with re's own backtracking priorities; every character test on a symbolic character is a
+    fork decided by the solver"""
+    IGNORECASE, MULTILINE, DOTALL = re.IGNORECASE, re.MULTILINE, re.DOTALL
+
+    def __init__(self):
+        self.cache = {}
+
+    def _rx(self, pattern, flags=0):
+        text = pattern if isinstance(pattern, str) else pattern.concrete()
+        if text is None:
+            S._unsupported("re model: symbolic pattern")
+        key = (text, flags)
+        if key not in self.cache:
+            self.cache[key] = _Rx(text, flags)
+        return self.cache[key]
+
+    @staticmethod
+    def _codes(string):
+        if isinstance(string, S.CharStr):
+            return string.c, string
+        return [ord(ch) for ch in string], S.CharStr(string)
+
+    def search(self, pattern, string, flags=0):
+        codes, cs = self._codes(string)
+        r = self._rx(pattern, flags).search_bt(codes)
+        if r is None:
+            return None
+        return _ReMatch(cs, r[0], r[1], r[2])
+
+    def split(self, pattern, string, maxsplit=0):
+        rx = self._rx(pattern)
+        if rx.tree.state.groups > 1:
+            S._unsupported("re model: split with capture groups")
+        codes, cs = self._codes(string)
+        out, pos, last = [], 0, 0
+        while pos <= len(codes):
+            r = rx.search_bt(codes, pos)
+            if r is None:
+                break
+            a, b, _ = r
+            if b == a:
+                S._unsupported("re model: split on an empty match")
+            out.append(cs[last:a])
+            last = pos = b
+            if maxsplit and len(out) >= maxsplit:
+                break
+        out.append(cs[last:])
+        return out
+
+
+# RFC 5322: specials must not appear in an unquoted display name (phrase); a quoted-string may hold
+# anything but an unescaped quote or backslash
+SPECIALS = '()<>[]:;@\\,."'
+ADDRS = ["a@x.y", "b@x.y"]
+
+
+def _sym_name(ctx, tag, n, quoted, display_to):
+    nm = ctx.fresh_chars(tag, n, 32, 126)
+    banned = '"\\' if quoted else SPECIALS
+    if display_to:
+        # PidTagDisplayTo: display names separated by ';' - a name holds no ';' (a comma is an ordinary
+        # character: "Doe, John"); names that look like markup or an address are left out
+        banned = ';<>@"\\'
+    # (Outlook wraps display names in single quotes - 'John Doe' <j@x> - and the parser removes them: a name
+    # that itself begins or ends with an apostrophe is left out of the claim)
+    if ctx.concrete:
+        ctx.assume(not any(ch in banned for ch in nm))
+        ctx.assume(nm == nm.strip() and nm == nm.strip("'"))
+    else:
+        for ch in nm.c:
+            for b in banned:
+                ctx.assume(ch != ord(b))
+        if nm.c:
+            for edge in (nm.c[0], nm.c[-1]):
+                ctx.assume(edge != 32)
+                ctx.assume(edge != 39)
+    return nm
+
+
+def k3r_recipients(ctx):
+    msg = _msg()
+    from vf import lift
+    mode = ctx.params["mode"]
+    lens = ctx.params["name_lens"]
+    n_box = 1 + ctx.choice("mailboxes_minus_1", ctx.params.get("max_boxes", 2))
+    pieces, expected = [], []
+    for i in range(n_box):
+        addr = ADDRS[i]
+        if mode == "display":
+            nm = _sym_name(ctx, f"name{i}", lens[ctx.choice(f"name{i}_len", len(lens))], False, True)
+            pieces.append(nm)
+            expected.append((nm, ""))
+            continue
+        form = ctx.choice(f"form{i}", 4)
+        if form == 0:
+            nm = _sym_name(ctx, f"name{i}", lens[ctx.choice(f"name{i}_len", len(lens))], False, False)
+            pieces.append(nm + " <" + addr + ">")
+            expected.append((nm, addr))
+        elif form == 1:
+            nm = _sym_name(ctx, f"name{i}", lens[ctx.choice(f"name{i}_len", len(lens))], True, False)
+            pieces.append('"' + nm + '" <' + addr + ">")
+            expected.append((nm, addr))
+        elif form == 2:
+            pieces.append("<" + addr + ">")
+            expected.append(("", addr))
+        else:
+            pieces.append(addr)
+            expected.append(("", addr))
+    as_list = mode == "list"
+    sep = "; " if mode == "display" else ", "
+    if as_list:
+        raw = [p_ if ctx.concrete or isinstance(p_, S.CharStr) else S.CharStr(p_) for p_ in pieces]
+    else:
+        raw = pieces[0]
+        for p_ in pieces[1:]:
+            raw = raw + sep + p_
+        if not ctx.concrete and not isinstance(raw, S.CharStr):
+            raw = S.CharStr(raw)
+    if ctx.concrete:
+        got = msg._parse_multi_recipients(raw)
+    else:
+        ctx.decision_memo = {}
+        model = _ReModel()
+        single = lift.lift(msg._parse_single_recipient, re=model)
+        multi = lift.lift(msg._parse_multi_recipients, re=model, _parse_single_recipient=single)
+        got = multi(raw)
+    shown = str(raw) if not as_list else [str(x) for x in raw]
+    known = "C16-msg-recipient-split-inside-display-name" in (ctx.params.get("known_active") or ()) and not ctx.perturb
+    if known:
+        for nm, _a in expected:
+            if isinstance(nm, str) and not nm:
+                continue
+            if bool(_any_char(nm, ",;<>")):
+                ctx.note("path-in-class-of-known-finding:C16-msg-recipient-split-inside-display-name")
+                ctx.require(True, "excluded-known-class")
+                return
+    ctx.require(len(got) == len(expected), "recipient-count-differs", raw=shown, got=[(str(g.name), str(g.address)) for g in got],
+                expected=[(str(a), str(b)) for a, b in expected])
+    for g, (nm, addr) in zip(got, expected):
+        if ctx.perturb == "expect_quotes_kept" and not (isinstance(nm, str) and not nm):
+            nm = '"' + nm + '"'
+        gn = g.name.strip() if hasattr(g.name, "strip") else g.name
+        ctx.require(g.address == addr, "recipient-address-differs", raw=shown, got=str(g.address), expected=addr)
+        ctx.require(gn == nm, "recipient-display-name-differs", raw=shown, got=str(g.name), expected=str(nm))
+
+
+def _any_char(s_, chars):
+    if isinstance(s_, str):
+        return any(ch in chars for ch in s_)
+    return S.CharStr._disj([S.CharStr._eqc(c, ord(ch)) for c in s_.c for ch in chars])
+
+
+def _edge_char(s_, chars):
+    if isinstance(s_, str):
+        return bool(s_) and (s_[0] in chars or s_[-1] in chars)
+    if not s_.c:
+        return False
+    return S.CharStr._disj([S.CharStr._eqc(c, ord(ch)) for c in (s_.c[0], s_.c[-1]) for ch in chars])
+
+
+def _k3r_parts(tier):
+    parts = []
+    for md in ("header", "list", "display"):
+        parts += [{"mode": md, "name_lens": [1], "max_boxes": 2}, {"mode": md, "name_lens": [2], "max_boxes": 2},
+                  {"mode": md, "name_lens": [3], "max_boxes": 1}]
+        if tier != "quick":
+            parts += [{"mode": md, "name_lens": [3], "max_boxes": 2}, {"mode": md, "name_lens": [4], "max_boxes": 1}]
+    return parts
+
+
+def _k3r_targets():
+    msg = _msg()
+    return [msg._parse_multi_recipients, msg._parse_single_recipient]
+
+
+
+# =======================================================================================
+# K3  mapping plumbing on fake parser objects (structure choices; all values concrete)
+# =======================================================================================
+class _Obj:
+    def __init__(self, **kw):
+        self.__dict__.update(kw)
+
+
+def _vary(ctx, group, name, options, default=0):
+    """options[choice] when this part varies ``group`` (or everything), else the default option"""
+    v = ctx.params.get("vary")
+    if v == group or v == "all":
+        return options[ctx.choice(name, len(options))]
+    return options[default]
+
+
+def _only_ws_left(text, parts):
+    """the parts occur in this order and nothing but white space is left over"""
+    pos = 0
+    for part in parts:
+        j = text.find(part, pos)
+        if j < 0 or text[pos:j].strip():
+            return False
+        pos = j + len(part)
+    return not text[pos:].strip()
+
+
+def _same_instant(iso, ref):
+    import datetime
+    try:
+        d = datetime.datetime.fromisoformat(iso)
+    except Exception:
+        return False
+    if (d.tzinfo is None) != (ref.tzinfo is None):
+        return False
+    return d == ref
+
+
+PAYLOADS = [b"%PDF-1.4\n\x00\xff\xfe binary", b"", b"plain ascii text\n", "text of an attached message\n"]
+
+
+def k3_eml(ctx):
+    """_read_eml_format with parse_from_bytes replaced by a fake of what mail-parser hands over"""
+    import datetime
+    e = _eml()
+    table = dict(__import__("sharepoint2text.parsing.mime_types", fromlist=["x"]).MIME_TYPE_MAPPING)
+    tz = datetime.timezone(datetime.timedelta(hours=2))
+    from_ = _vary(ctx, "addr", "from", [[("N0", "s@x.y")], [("", "s@x.y")], [("Doe, John", "s@x.y"), ("N1", "t@x.y")]])
+    to = _vary(ctx, "addr", "to", [[("T0", "t0@x.y")], [], [("Roe, Jane", "t0@x.y"), ("", "t1@x.y")]])
+    cc = _vary(ctx, "addr", "cc", [[], [("C0", "c0@x.y")], [("", ""), ("C0", "c0@x.y")], [("C0",)],
+                                   [("C0", "c0@x.y"), ("C1", "c1@x.y")]])
+    bcc = _vary(ctx, "addr", "bcc", [[], [("B0", "b0@x.y")]])
+    reply_to = _vary(ctx, "addr", "reply_to", [[], [("R0", "r0@x.y")]])
+    subject = _vary(ctx, "scalar", "subject", ["S u b", "  padded  ", "", None])
+    date = _vary(ctx, "scalar", "date", [datetime.datetime(2015, 1, 2, 3, 4, 5, tzinfo=tz),
+                                          datetime.datetime(2015, 1, 2, 3, 4, 5), None])
+    mid = _vary(ctx, "scalar", "message_id", ["<m1@x.y>", None, ""])
+    irt = _vary(ctx, "scalar", "in_reply_to", ["<m0@x.y>", None])
+    plain = _vary(ctx, "body", "text_plain", [["P1 line"], [], ["P1 line", "P2 line"], "P1 line"])
+    html = _vary(ctx, "body", "text_html", [[], ["<p>H1</p>"], ["<p>H1</p>", "<p>H2</p>"], "<p>H1</p>"])
+    n_att = _vary(ctx, "att", "n_attachments", [0, 1, 2])
+    atts, exp_att = [], []
+    for i in range(n_att):
+        pay = PAYLOADS[ctx.choice(f"payload{i}", len(PAYLOADS))]
+        fname = [f"file{i}.pdf", None, ""][ctx.choice(f"filename{i}", 3)]
+        mtype = ["application/pdf", None, "application/x-unknown"][ctx.choice(f"mime{i}", 3)]
+        if isinstance(pay, bytes):
+            b64 = base64.b64encode(pay).decode("ascii")
+            if ctx.flag(f"payload{i}_folded"):
+                b64 = "\n".join(b64[k:k + 8] for k in range(0, len(b64), 8)) + "\n"
+            d = {"filename": fname, "payload": b64, "binary": True, "mail_content_type": mtype,
+                 "content_transfer_encoding": "base64", "charset": None}
+            raw = pay
+        else:
+            d = {"filename": fname, "payload": pay, "binary": False, "mail_content_type": mtype,
+                 "content_transfer_encoding": "", "charset": None}
+            raw = pay.encode("ascii")
+        atts.append(d)
+        exp_att.append((fname, mtype, raw))
+    mail = _Obj(from_=from_, to=to, cc=cc, bcc=bcc, reply_to=reply_to, subject=subject, date=date,
+                message_id=mid, in_reply_to=irt, text_plain=plain, text_html=html, attachments=atts)
+    seen = []
+
+    def fake_parse(payload):
+        seen.append(payload)
+        return mail
+    with ctx.stub(e, parse_from_bytes=fake_parse):
+        try:
+            c = e._read_eml_format(b"raw bytes of the message")
+        except Exception as ex:
+            ctx.fail("eml-mapping-raised", exc=type(ex).__name__, msg=str(ex)[:120])
+    ctx.require(seen == [b"raw bytes of the message"], "parser-not-given-the-file-bytes", seen=repr(seen)[:80])
+    pair = lambda a: (a.name, a.address)
+    ctx.require(pair(c.from_email) == tuple(from_[0]), "sender-differs", got=pair(c.from_email), expected=from_[0])
+    ctx.require([pair(a) for a in c.to_emails] == [tuple(t) for t in to], "to-recipients-differ",
+                got=[pair(a) for a in c.to_emails], expected=to)
+    for field, given, label in ((c.to_cc, cc, "cc"), (c.to_bcc, bcc, "bcc"), (c.reply_to, reply_to, "reply-to")):
+        want = [tuple(t) for t in given if len(t) > 1 and t[1]]
+        if ctx.perturb == "cc_keeps_entries_without_address" and label == "cc":
+            want = [tuple(t) + ("",) * (2 - len(t)) for t in given]
+        got = [pair(a) for a in field if a.address or ctx.perturb]
+        ctx.require(got == want, f"{label}-recipients-differ", got=got, expected=want)
+    ctx.require(c.subject.strip() == (subject or "").strip(), "subject-differs", got=c.subject, expected=subject)
+    if date is None:
+        ctx.require(c.metadata.date == "", "date-invented", got=c.metadata.date)
+    else:
+        ctx.require(_same_instant(c.metadata.date, date), "date-is-not-the-iso-date", got=c.metadata.date,
+                    expected=date.isoformat())
+    ctx.require(c.metadata.message_id == (mid or ""), "message-id-differs", got=c.metadata.message_id, expected=mid)
+    ctx.require(c.in_reply_to == (irt or ""), "in-reply-to-differs", got=c.in_reply_to, expected=irt)
+    for got, given, label in ((c.body_plain, plain, "plain"), (c.body_html, html, "html")):
+        parts = [given] if isinstance(given, str) else list(given)
+        ctx.require(_only_ws_left(got, parts), f"{label}-body-differs", got=got, expected=parts)
+    ctx.require(len(c.attachments) == len(exp_att), "attachment-count-differs", got=len(c.attachments), expected=len(exp_att))
+    for a, (fname, mtype, raw) in zip(c.attachments, exp_att):
+        if fname:
+            ctx.require(a.filename == fname, "attachment-name-differs", got=a.filename, expected=fname)
+        else:
+            ctx.require(isinstance(a.filename, str) and a.filename != "", "attachment-without-name", got=a.filename)
+        if mtype:
+            ctx.require(a.mime_type == mtype, "attachment-type-differs", got=a.mime_type, expected=mtype)
+        else:
+            ctx.require(isinstance(a.mime_type, str) and a.mime_type != "", "attachment-without-type", got=a.mime_type)
+        ctx.require(a.data.getvalue() == raw, "attachment-bytes-differ", got=repr(a.data.getvalue()[:40]), expected=repr(raw[:40]))
+        ctx.require(a.data.tell() == 0, "attachment-stream-not-at-start", pos=a.data.tell())
+        ctx.require(a.is_supported_mime_type == (a.mime_type in table), "attachment-supported-flag-differs",
+                    mime=a.mime_type, flag=a.is_supported_mime_type)
+
+
+class _FakeOle:
+    """olefile.OleFileIO stand-in: a dict {path tuple: bytes} of streams"""
+
+    def __init__(self, streams):
+        self.streams = streams
+
+    def __call__(self, f):
+        return self
+
+    def __enter__(self):
+        return self
+
+    def __exit__(self, *a):
+        return False
+
+    def listdir(self, streams=True, storages=False):
+        out = []
+        seen = set()
+        for path in self.streams:
+            for k in range(1, len(path)):
+                if path[:k] not in seen:
+                    seen.add(path[:k])
+                    if storages:
+                        out.append(list(path[:k]))
+            if streams:
+                out.append(list(path))
+        return out
+
+    def openstream(self, path):
+        key = tuple(path) if not isinstance(path, str) else tuple(path.split("/"))
+        if key not in self.streams:
+            raise OSError("file not found")
+        return io.BytesIO(self.streams[key])
+
+
+def k3_msg(ctx):
+    """read_msg_format_mail with MsOxMessage / OleFileIO replaced by fakes of what msg_parser / olefile
+    hand over"""
+    import datetime
+    m = _msg()
+    table = dict(__import__("sharepoint2text.parsing.mime_types", fromlist=["x"]).MIME_TYPE_MAPPING)
+    u16 = lambda t: t.encode("utf-16-le")
+    sender = _vary(ctx, "addr", "sender", ["N0 <s@x.y>", "s@x.y", "<s@x.y>", ["N0 <s@x.y>"]])
+    to = _vary(ctx, "addr", "to", ["T0 <t0@x.y>", "T0 <t0@x.y>, T1 <t1@x.y>", "T0; T1", ["T0 <t0@x.y>", "t1@x.y"], None])
+    cc = _vary(ctx, "addr", "cc", [None, "C0 <c0@x.y>", ""])
+    bcc = _vary(ctx, "addr", "bcc", [None, "B0 <b0@x.y>"])
+    exp_addr = {"N0 <s@x.y>": [("N0", "s@x.y")], "s@x.y": [("", "s@x.y")], "<s@x.y>": [("", "s@x.y")],
+                "T0 <t0@x.y>": [("T0", "t0@x.y")], "T0 <t0@x.y>, T1 <t1@x.y>": [("T0", "t0@x.y"), ("T1", "t1@x.y")],
+                "T0; T1": [("T0", ""), ("T1", "")], "C0 <c0@x.y>": [("C0", "c0@x.y")], "B0 <b0@x.y>": [("B0", "b0@x.y")],
+                "t1@x.y": [("", "t1@x.y")], "": [], None: []}
+
+    def expect(v):
+        if isinstance(v, list):
+            return [x for item in v for x in exp_addr[item]]
+        return exp_addr[v]
+    subject = _vary(ctx, "scalar", "subject", ["S u b", "  padded  "])
+    mid = _vary(ctx, "scalar", "message_id", ["<m1@x.y>", None])
+    sent = _vary(ctx, "scalar", "sent_date", ["Fri, 02 Jan 2015 03:04:05 +0200", "Fri, 02 Jan 2015 03:04:05 -0000"])
+    body = _vary(ctx, "body", "body", ["plain text body", "<html><body><p>Visible</p><script>hidden()</script></body></html>",
+                                       "", None])
+    n_att = _vary(ctx, "att", "n_attachments", [0, 1, 2])
+    streams, exp_att = {}, []
+    streams[("__recip_version1.0_#00000000", "__substg1.0_3001001F")] = u16("T0")
+    for i in range(n_att):
+        st = "__attach_version1.0_#%08d" % i
+        data = [b"%PDF-1.4\n\x00\xff", b""][ctx.choice(f"att{i}_data", 2)]
+        names = ctx.choice(f"att{i}_names", 3)           # long+short, short only, none
+        has_mime = ctx.flag(f"att{i}_has_mime")
+        has_data = not ctx.flag(f"att{i}_without_data_stream")
+        if has_data:
+            streams[(st, "__substg1.0_37010102")] = data
+        if names == 0:
+            streams[(st, "__substg1.0_3707001F")] = u16(f"long name {i}.pdf\x00")
+        if names <= 1:
+            streams[(st, "__substg1.0_3704001F")] = u16(f"LONGNA~{i}.PDF")
+        if has_mime:
+            streams[(st, "__substg1.0_370E001F")] = u16("application/pdf")
+        # an embedded message's own attachment storage (nested): not an attachment of this message
+        if ctx.params.get("vary") in ("att", "all") and i == 0 and ctx.flag("nested_storage"):
+            streams[(st, "__substg1.0_3701000D", "__attach_version1.0_#00000000", "__substg1.0_37010102")] = b"inner"
+        if has_data:
+            exp_att.append(({0: f"long name {i}.pdf", 1: f"LONGNA~{i}.PDF", 2: None}[names],
+                            "application/pdf" if has_mime else None, data))
+    fake = _Obj(message_id=mid, sent_date=sent, sender=sender, to=to, cc=cc, bcc=bcc, reply_to=None, body=body,
+                subject=subject)
+    given = []
+
+    def fake_msg(stream):
+        given.append(stream.read())
+        return fake
+    file_bytes = b"\xd0\xcf\x11\xe0 not really"
+    with ctx.stub(m, MsOxMessage=fake_msg, OleFileIO=_FakeOle(streams)):
+        try:
+            out = list(m.read_msg_format_mail(io.BytesIO(file_bytes), "dir/mail.msg"))
+        except Exception as ex:
+            ctx.fail("msg-mapping-raised", exc=type(ex).__name__, msg=str(ex)[:160], cause=repr(getattr(ex, "__cause__", None))[:120])
+    ctx.require(len(out) == 1, "not-exactly-one-result", got=len(out))
+    ctx.require(given == [file_bytes], "parser-not-given-the-file-bytes")
+    c = out[0]
+    pair = lambda a: (a.name, a.address)
+    ctx.require(pair(c.from_email) == expect(sender)[0], "sender-differs", got=pair(c.from_email), expected=expect(sender)[0])
+    for field, v, label in ((c.to_emails, to, "to"), (c.to_cc, cc, "cc"), (c.to_bcc, bcc, "bcc")):
+        want = expect(v)
+        if ctx.perturb == "to_and_cc_swapped" and label in ("to", "cc"):
+            want = expect(cc if label == "to" else to)
+        ctx.require([pair(a) for a in field] == want, f"{label}-recipients-differ", got=[pair(a) for a in field], expected=want)
+    ctx.require(c.subject.strip() == subject.strip(), "subject-differs", got=c.subject, expected=subject)
+    ctx.require(c.metadata.message_id == mid, "message-id-differs", got=c.metadata.message_id, expected=mid)
+    ref = datetime.datetime(2015, 1, 2, 3, 4, 5, tzinfo=datetime.timezone(datetime.timedelta(hours=2))) \
+        if sent.endswith("+0200") else datetime.datetime(2015, 1, 2, 3, 4, 5)
+    ctx.require(_same_instant(c.metadata.date, ref), "date-is-not-the-iso-date", got=c.metadata.date, expected=sent)
+    if body and body.startswith("<html"):
+        ctx.require(c.body_html == body, "html-body-differs", got=c.body_html[:60])
+        ctx.require("Visible" in c.body_plain and "hidden" not in c.body_plain, "plain-text-of-html-body-differs", got=c.body_plain[:60])
+    else:
+        ctx.require(c.body_plain == (body or "").strip() and c.body_html == "", "plain-body-differs", got=c.body_plain[:60])
+    ctx.require(len(c.attachments) == len(exp_att), "attachment-count-differs", got=len(c.attachments), expected=len(exp_att))
+    for a, (fname, mtype, raw) in zip(c.attachments, exp_att):
+        if fname:
+            ctx.require(a.filename == fname, "attachment-name-differs", got=a.filename, expected=fname)
+        else:
+            ctx.require(isinstance(a.filename, str) and a.filename != "", "attachment-without-name", got=a.filename)
+        if mtype:
+            ctx.require(a.mime_type == mtype, "attachment-type-differs", got=a.mime_type, expected=mtype)
+        ctx.require(a.data.getvalue() == raw and a.data.tell() == 0, "attachment-bytes-differ", got=repr(a.data.getvalue()[:40]))
+        ctx.require(a.is_supported_mime_type == (a.mime_type in table), "attachment-supported-flag-differs", mime=a.mime_type)
+    ctx.require(c.metadata.filename == "mail.msg", "path-metadata-not-populated", got=c.metadata.filename)
+
+
+def _k3_parts(tier):
+    return [{"vary": g} for g in ("addr", "scalar", "body", "att")]
+
+
+
+# =======================================================================================
+# K3m  generated messages (stdlib email API / generator) through parse_email_message and the public
+#      mbox / eml entry points (structure choices; all values concrete)
+# =======================================================================================
+FROMS = [("N0", "s@x.y"), ("Doe, John", "s@x.y"), ("J\u00f6rg M\u00fcller", "s@x.y"), ("", "s@x.y")]
+TOS = [[("T0", "t0@x.y")], [("Roe, Jane", "t0@x.y"), ("", "t1@x.y")],
+       [("\u00dcnal \u015eahin", "t0@x.y"), ("T1", "t1@x.y"), ("T2 with a rather long display name to force folding", "t2@x.y")], []]
+CCS = [[], [("C0", "c0@x.y")]]
+SUBJECTS = ["Plain subject", "Gr\u00fc\u00dfe aus K\u00f6ln \u2013 \u00c4\u00d6\u00dc",
+            "A rather long subject line that the generator has to fold over more than one physical line of the header",
+            "=?x?= looks encoded"]
+TEXTS = ["Hello body\nsecond line\n", "Gr\u00fc\u00dfe aus K\u00f6ln, caf\u00e9\n", "first\nFrom the start of a line\nlast\n"]
+HTMLS = ["<html><body><p>Hello <b>html</b></p></body></html>\n", "<p>Gr\u00fc\u00dfe</p>\n"]
+ATTACHMENTS = [(b"%PDF-1.4\n\x00\xff\xfe\r\n tail", "application", "pdf", "report.pdf"),
+               ("caf\u00e9 notes\n".encode("latin-1"), "text", "plain", "notes.txt"),
+               (b"PK\x03\x04 not really", "application", "octet-stream", "\u00dcbersicht 2015.docx"),
+               (b"From here\nFrom there\n", "application", "x-unknown", "lines.bin")]
+
+
+def _gen_message(ctx, k=0):
+    """one RFC 5322 / MIME message built with the standard library's API; returns (EmailMessage, expected)"""
+    import datetime
+    import email.utils
+    from email.message import EmailMessage
+    v = lambda group, name, options, default=0: _vary(ctx, group, f"{name}{k}" if k else name, options, default)
+    frm = v("hdr", "from", FROMS)
+    to = v("hdr", "to", TOS)
+    cc = v("hdr", "cc", CCS)
+    subject = v("hdr", "subject", SUBJECTS)
+    tz = v("hdr", "zone", [2, 0, -8])
+    when = datetime.datetime(2015, 1, 2, 3, 4, 5, tzinfo=datetime.timezone(datetime.timedelta(hours=tz)))
+    kind = v("body", "body_kind", ["plain", "html", "alternative"])
+    ti = v("body", "text", [0, 1, 2] if ctx.params.get("from_lines", True) else [0, 1])
+    charset = v("body", "charset", ["utf-8", "iso-8859-1"])
+    cte = v("body", "transfer_encoding", ["base64", "quoted-printable", "8bit"])
+    hi = v("body", "html_text", [0, 1])
+    n_att = v("att", "n_attachments", [0, 1, 2])
+    related = v("att", "inline_image", [False, True]) and kind != "plain"
+    text, html = TEXTS[ti], HTMLS[hi]
+    if k:
+        subject = f"{subject} #{k}"
+        text = text + f"message number {k}\n"
+    m = EmailMessage()
+    m["From"] = email.utils.formataddr(frm)
+    m["To"] = ", ".join(email.utils.formataddr(t) for t in to) if to else "undisclosed-recipients:;"
+    if cc:
+        m["Cc"] = ", ".join(email.utils.formataddr(t) for t in cc)
+    m["Subject"] = subject
+    m["Date"] = email.utils.format_datetime(when)
+    m["Message-ID"] = f"<m{k}@x.y>"
+    exp = {"from": frm, "to": list(to), "cc": list(cc), "subject": subject, "date": when, "message_id": f"<m{k}@x.y>",
+           "plain": "", "html": "", "attachments": []}
+    if kind in ("plain", "alternative"):
+        m.set_content(text, subtype="plain", charset=charset, cte=cte)
+        exp["plain"] = text
+    if kind == "html":
+        m.set_content(html, subtype="html", charset=charset, cte=cte)
+        exp["html"] = html
+    elif kind == "alternative":
+        m.add_alternative(html, subtype="html", charset=charset, cte=cte)
+        exp["html"] = html
+    if related:
+        part = m if kind == "html" else m.get_payload()[1]
+        part.add_related(b"\x89PNG\r\n\x1a\n fake", maintype="image", subtype="png", cid="<img1@x.y>")
+    for i in range(n_att):
+        data, mt, st, fn = ATTACHMENTS[ctx.choice(f"attachment{k}_{i}" if k else f"attachment{i}", len(ATTACHMENTS))]
+        m.add_attachment(data, maintype=mt, subtype=st, filename=fn)
+        exp["attachments"].append((fn, f"{mt}/{st}", data))
+    return m, exp
+
+
+def _norm_ws(t):
+    return " ".join(t.split())
+
+
+def _check_content(ctx, c, exp, where, known_active):
+    """EmailContent against the message it was extracted from (property text, first sentence)"""
+    info = dict(where=where, subject=exp["subject"])
+    pair = lambda a: (a.name, a.address)
+    ctx.require(_norm_ws(c.subject) == _norm_ws(exp["subject"]), "subject-differs", got=c.subject, **info)
+    ctx.require(pair(c.from_email) == tuple(exp["from"]), "sender-differs", got=pair(c.from_email), expected=exp["from"], **info)
+    ctx.require([pair(a) for a in c.to_emails] == [tuple(t) for t in exp["to"]], "to-recipients-differ",
+                got=[pair(a) for a in c.to_emails], expected=exp["to"], **info)
+    ctx.require([pair(a) for a in c.to_cc] == [tuple(t) for t in exp["cc"]], "cc-recipients-differ",
+                got=[pair(a) for a in c.to_cc], expected=exp["cc"], **info)
+    ctx.require(_same_instant(c.metadata.date, exp["date"]), "date-is-not-the-iso-date", got=c.metadata.date,
+                expected=exp["date"].isoformat(), **info)
+    ctx.require(c.metadata.message_id.strip() == exp["message_id"], "message-id-differs", got=c.metadata.message_id, **info)
+    nl = lambda t: t.replace("\r\n", "\n").strip()
+    want_plain = nl(exp["plain"])
+    got_plain = nl(c.body_plain)
+    if got_plain != want_plain and where in ("mbox",) and "C16-mbox-escaped-from-line-kept" in known_active \
+            and got_plain == want_plain.replace("\nFrom ", "\n>From "):
+        ctx.note("path-in-class-of-known-finding:C16-mbox-escaped-from-line-kept")
+    else:
+        ctx.require(got_plain == want_plain, "plain-body-differs", got=c.body_plain[:80], expected=exp["plain"][:80], **info)
+    ctx.require(nl(c.body_html) == nl(exp["html"]), "html-body-differs", got=c.body_html[:80], expected=exp["html"][:80], **info)
+    names = [fn for fn, _t, _d in exp["attachments"]]
+    got = [a for a in c.attachments if a.filename in names]
+    if len(got) != len(names) and not c.attachments and where in ("mbox", "object") \
+            and "C16-mbox-attachments-not-extracted" in known_active:
+        ctx.note("path-in-class-of-known-finding:C16-mbox-attachments-not-extracted")
+        return
+    ctx.require([a.filename for a in got] == names, "attachments-missing-or-reordered", got=[a.filename for a in c.attachments],
+                expected=names, **info)
+    for a, (fn, mt, data) in zip(got, exp["attachments"]):
+        ctx.require(a.mime_type == mt, "attachment-type-differs", got=a.mime_type, expected=mt, name=fn, **info)
+        ctx.require(a.data.getvalue() == data, "attachment-bytes-differ", got=repr(a.data.getvalue()[:40]),
+                    expected=repr(data[:40]), name=fn, **info)
+
+
+def _mbox_bytes(messages, crlf, sep_style, final_blank):
+    """mbox writer after RFC 4155 / mboxo: separator line, message with its "From " lines escaped by ">", one
+    empty line"""
+    out = []
+    for k, raw in enumerate(messages):
+        sep = [b"From MAILER-DAEMON Fri Jan  2 03:04:05 2015", b"From s@x.y Fri Jan 02 03:04:05 2015"][sep_style]
+        lines = raw.replace(b"\r\n", b"\n").split(b"\n")
+        if lines and lines[-1] == b"":
+            lines.pop()
+        body = [(b">" + ln if ln.startswith(b"From ") else ln) for ln in lines]
+        out.append(sep)
+        out.extend(body)
+        if final_blank or k < len(messages) - 1:
+            out.append(b"")
+    eol = b"\r\n" if crlf else b"\n"
+    return b"".join(ln + eol for ln in out)
+
+
+def k3m_generated(ctx):
+    import email.policy
+    mb, e = _mbox(), _eml()
+    via = ctx.params["via"]
+    known_active = [] if ctx.perturb else list(ctx.params.get("known_active") or ())
+    if via == "object":
+        # the Message object as the standard library API builds it, straight into the mapping function
+        m, exp = _gen_message(ctx)
+        try:
+            c = mb.parse_email_message(m)
+        except Exception as ex:
+            ctx.fail("mapping-raised", exc=type(ex).__name__, msg=str(ex)[:120])
+        _check_content(ctx, c, exp, "object", known_active)
+        return
+    if via == "eml":
+        m, exp = _gen_message(ctx)
+        crlf = ctx.flag("crlf")
+        raw = m.as_bytes(policy=email.policy.SMTP if crlf else email.policy.default)
+        try:
+            out = list(e.read_eml_format_mail(io.BytesIO(raw), "dir/a.eml"))
+        except Exception as ex:
+            ctx.fail("eml-extraction-raised", exc=type(ex).__name__, msg=str(ex)[:120], cause=repr(ex.__cause__)[:120])
+        ctx.require(len(out) == 1, "not-exactly-one-result", got=len(out))
+        _check_content(ctx, out[0], exp, "eml", known_active)
+        return
+    n = _vary(ctx, "mbox", "n_messages", [1, 0, 2, 3])
+    crlf = _vary(ctx, "mbox", "crlf", [False, True])
+    sep_style = _vary(ctx, "mbox", "separator_style", [0, 1])
+    final_blank = _vary(ctx, "mbox", "final_blank_line", [True, False])
+    msgs, exps = [], []
+    for k in range(n):
+        m, exp = _gen_message(ctx, k)
+        msgs.append(m.as_bytes())
+        exps.append(exp)
+    data = _mbox_bytes(msgs, crlf, sep_style, final_blank)
+    try:
+        out = list(mb.read_mbox_format_mail(io.BytesIO(data), "dir/a.mbox"))
+    except Exception as ex:
+        ctx.fail("mbox-extraction-raised", exc=type(ex).__name__, msg=str(ex)[:120], cause=repr(ex.__cause__)[:120])
+    want = n + (1 if ctx.perturb == "expect_one_more_message" else 0)
+    ctx.require(len(out) == want, "mbox-result-count-differs", got=len(out), expected=want)
+    for c, exp in zip(out, exps):
+        _check_content(ctx, c, exp, "mbox", known_active)
+        ctx.require(c.metadata.filename == "a.mbox", "path-metadata-not-populated", got=c.metadata.filename)
+
+
+def _k3m_parts(tier):
+    parts = []
+    for via in ("object", "eml", "mbox"):
+        parts += [{"via": via, "vary": g} for g in ("hdr", "body", "att")]
+    parts.append({"via": "mbox", "vary": "mbox"})
+    if tier != "quick":
+        parts += [{"via": via, "vary": "all", "from_lines": False} for via in ("object", "eml")]
+    return parts
+
+
+def _k3m_targets():
+    mb, e = _mbox(), _eml()
+    return [mb.parse_email_message, mb.get_body_content, mb.parse_email_addresses, mb.parse_email_address,
+            mb.decode_header_value, mb.read_mbox_format_mail, mb._split_mbox_messages, e.read_eml_format_mail,
+            e._read_eml_format]
+
+
+
+def _k2_public_replay(kernel, tier, params, inputs):
+    """replay of a routing counterexample through the same harness, then - for a skipped attachment - through
+    the public API: a generated .eml with an attachment of that name and MIME type (plain text payload)"""
+    v, detail = S.replay_concrete(k2_routing, inputs, tier=tier, params=params)
+    out = {"violated": bool(v), "detail": detail}
+    try:
+        if v and detail and detail[0] == "supported-attachment-skipped":
+            from email.message import EmailMessage
+            info = detail[1]
+            mt, _, st = (info.get("mime") or "application/octet-stream").partition("/")
+            m = EmailMessage()
+            m["From"], m["To"], m["Subject"], m["Date"] = "s@x.y", "t@x.y", "s", "Fri, 02 Jan 2015 03:04:05 +0000"
+            m.set_content("body\n")
+            m.add_attachment(b"attached text\n", maintype=mt or "application", subtype=st or "octet-stream",
+                             filename=info.get("name") or "x")
+            c = next(_eml().read_eml_format_mail(io.BytesIO(m.as_bytes()), "a.eml"))
+            out["public_api"] = {"attachments": [(a.filename, a.mime_type, a.is_supported_mime_type) for a in c.attachments],
+                                 "iterate_supported_attachments": [type(x).__name__ for x in c.iterate_supported_attachments()]}
+    except Exception as ex:
+        out["public_api_error"] = repr(ex)[:200]
+    return out
+
+
+_K1_SYMBOLIC = ["every content byte of every line (any byte but LF; K1b: CR only as the last byte of a line = LF/CRLF "
+                "line ends)"]
+_K2 = Kernel(
+    "K2", "attachment routing: by name first, else by MIME type; unsupported skipped; encrypted re-raised; stream at 0 "
+          "before and after", k2_routing, targets=_k2_targets, parts=_k2_parts,
+    perturb=[("mime_first", {"name_len": None, "mime_lens": [15], "n_att": 1, "behaviours": 1}),
+             ("errors_drop_results", {"name_len": None, "mime_lens": [15], "n_att": 1, "behaviours": 6})],
+    symbolic=["every character of the attachment's file name (printable ASCII, length <= 5, thorough 7)",
+              "every character of the declared MIME type (lengths of table keys and others)",
+              "stream position before the call and where an extractor leaves the stream"],
+    choices=["file name from a vocabulary (compound extensions, upper case, no extension ...) for the longer names",
+             "MIME database answer for a name without documented extension", "extractor behaviour: one/two/no results, "
+             "encrypted error, other ExtractionError after the first result, foreign exception", "1 or 2 attachments"],
+    stubs=["_EXTRACTOR_REGISTRY -> same keys and function names, module of recording extractors",
+           "mimetypes.guess_type -> arbitrary answer per distinct name (C07's oracle); None for concrete names with a "
+           "documented extension", "os.path.splitext -> stdlib algorithm on the symbolic string (C07)",
+           "attachment.data -> stand-in stream recording seek()"],
+    assumptions=["EmailAttachment.is_supported_mime_type holds is_supported_mime_type(mime_type) as all three extractors "
+                 "store it (computed with the real function)",
+                 "reference routing: documented extension of the name (C07's README table), else the platform's MIME "
+                 "guess for the name, else the declared MIME type through the MIME table; the table itself is read from "
+                 "the live module"],
+    outside=["what the real extractors do with the bytes (C02..C14)", "names longer than the bound except the vocabulary"],
+    timeout={"quick": 110, "thorough": 1200}, max_depth=600)
+_K2.replayer = _k2_public_replay
+
 KERNELS = [
     Kernel("K1a", "separator language of the live MBOX_FROM_PATTERN: a match is one whole line starting at a line "
                   "start with 'From ', never an escaped '>From ' line; every RFC 4155 separator line is matched",
            k1a_language, engine="E3", targets=_k1_targets, parts=_k1a_parts,
-           perturb=[("colon_separator", {"lens": [12]})],
+           perturb=[("colon_separator", {"lens": [12]})], symbolic=_K1_SYMBOLIC,
+           assumptions=["translation of the pattern's sre parse tree into a formula per (start, end) by position-set "
+                        "simulation; validated on every replayed model against re itself",
+                        "RFC 4155 separator line: 'From ' addr-spec (printable ASCII, no quoted local part) ' ' ctime() "
+                        "timestamp, LF or CRLF"],
+           outside=["windows of more than 2 (3) lines / lines longer than the listed lengths (the pattern cannot match "
+                    "across an LF, so lines are independent)",
+                    "separator lines that begin with 'From ' but do not end in four digits (time zone names, trailing "
+                    "blanks): reported as information, not as a violation"],
            timeout={"quick": 100, "thorough": 1200}),
-    Kernel("K1b", "real _split_mbox_messages on symbolic mailboxes (pattern = formula model of the live pattern)",
+    Kernel("K1b", "real _split_mbox_messages on symbolic mailboxes: the messages are exactly the regions after the "
+                  "separator lines, in order, minus a CR/LF tail",
            k1b_split, targets=_k1_targets, parts=_k1b_parts,
            perturb=[("loose_separator", {"first": 6, "K": 2, "exact": True}),
                     ("sep_line_in_message", {"first": WF_MIN, "K": 2, "exact": True})],
-           timeout={"quick": 100, "thorough": 1200}),
+           symbolic=_K1_SYMBOLIC, choices=["number of lines", "length of each line from a menu", "last line unterminated"],
+           stubs=["MBOX_FROM_PATTERN -> finditer computed from the live pattern's parse tree on the symbolic bytes (the "
+                  "solver decides per line whether it matches); concrete replay uses the real pattern"],
+           assumptions=["well-formed mailbox: every line that begins with 'From ' is a complete RFC 4155 separator line "
+                        "(body lines beginning with 'From ' are escaped by the writer)",
+                        "a region that holds nothing but CR/LF is no message"],
+           outside=["mailboxes of more than 3 (4) lines; line lengths outside the menu; CR inside a line"],
+           timeout={"quick": 100, "thorough": 1500}),
+    _K2,
+    Kernel("K3r", "MSG recipient strings: one EmailAddress per mailbox, display name and address kept",
+           k3r_recipients, targets=_k3r_targets, parts=_k3r_parts,
+           perturb=[("expect_quotes_kept", {"mode": "header", "name_lens": [1], "max_boxes": 1})],
+           symbolic=["every character of every display name (printable ASCII, length <= 3, thorough 4)"],
+           choices=["1 or 2 mailboxes", "form of each: name <addr>, \"name\" <addr>, <addr>, addr", "header string / list "
+                    "of strings / PidTagDisplayTo name list"],
+           stubs=["re.search / re.split inside the two functions -> backtracking interpreter of the same pattern text on "
+                  "symbolic characters (lifted source, vf/lift.py); concrete replay runs the real functions"],
+           assumptions=["unquoted display names hold no RFC 5322 specials, quoted ones no quote or backslash; no leading/"
+                        "trailing blank or apostrophe (Outlook's 'name' wrapping is removed on purpose)"],
+           outside=["escaped characters inside quoted display names, comments, group syntax, names longer than the bound"],
+           timeout={"quick": 110, "thorough": 1200}, max_depth=800),
+    Kernel("K3e", "eml mapping: every field mail-parser hands over arrives in EmailContent without loss",
+           k3_eml, targets=lambda: [_eml()._read_eml_format], parts=_k3_parts, strength="structure",
+           perturb=[("cc_keeps_entries_without_address", {"vary": "addr"})],
+           stubs=["parse_from_bytes -> fake of the mail-parser result object"],
+           choices=["address tuples incl. malformed / empty / comma in display name", "subject/date/ids present, padded, "
+                    "None", "bodies as list / str / several parts", "0..2 attachments: base64 (folded or not) / text "
+                    "payload, file name and type present or None"], core=False),
+    Kernel("K3g", "msg mapping: fields of msg_parser / attachment streams of olefile arrive in EmailContent",
+           k3_msg, targets=lambda: [_msg().read_msg_format_mail, _msg()._extract_msg_attachments, _msg()._read_ole_string],
+           parts=_k3_parts, strength="structure", perturb=[("to_and_cc_swapped", {"vary": "addr"})],
+           stubs=["MsOxMessage -> fake of the msg_parser object", "OleFileIO -> dict of streams"],
+           choices=["sender/to/cc/bcc as string, list, None", "plain / HTML / empty body", "0..2 attachment storages with "
+                    "long/short/no name, with/without MIME tag, with/without data stream, nested storage"], core=False),
+    Kernel("K3m", "messages built with the stdlib email API: parse_email_message on the object, read_mbox / read_eml "
+                  "on the generated bytes - every field, body and attachment arrives",
+           k3m_generated, targets=_k3m_targets, parts=_k3m_parts, strength="structure",
+           perturb=[("expect_one_more_message", {"via": "mbox", "vary": "mbox"})],
+           choices=["From/To/Cc forms (quoted comma, non-ASCII names, folding, empty list)", "subject (RFC 2047, long, "
+                    "pseudo-encoded)", "time zone", "plain / html / alternative (+related image)", "charset x transfer "
+                    "encoding", "body line starting with 'From '", "0..2 attachments of 4 kinds (binary, latin-1 text, "
+                    "RFC 2231 file name, 'From ' lines inside)", "mbox of 0..3 messages, LF/CRLF, two separator styles, "
+                    "with/without final empty line"],
+           assumptions=["reference = the values given to the stdlib API; bodies compared modulo CRLF/LF and surrounding "
+                        "white space, subjects modulo white-space runs, dates as instants"],
+           outside=["decoding inside email / mail-parser for inputs other than the generated ones",
+                    "related (inline) parts are neither required nor forbidden as attachments"],
+           timeout={"quick": 110, "thorough": 1500}, core=False),
 ]
-KERNELS.append(
-    Kernel("K2", "attachment routing: by name first, else by MIME type; unsupported skipped; encrypted re-raised; "
-                 "stream at 0 before and after", k2_routing, targets=_k2_targets, parts=_k2_parts,
-           perturb=[("mime_first", {"name_len": None, "mime_lens": [15], "n_att": 1, "behaviours": 1}),
-                    ("errors_drop_results", {"name_len": None, "mime_lens": [15], "n_att": 1, "behaviours": 6})],
-           timeout={"quick": 110, "thorough": 1200}, max_depth=600))
 
-META = {"level_text": "", "level_note": "", "technique": ""}
+META = {
+    "level_text": "Decoding of headers, bodies and attachments is third-party code; the repository's own decisions are "
+                  "checked: (K1) the live mbox separator pattern is translated into a formula over bounded symbolic "
+                  "mailbox bytes - z3 shows that a match is always one whole line beginning 'From ' at a line start, "
+                  "never an escaped line, that every RFC 4155 separator is matched, and the real _split_mbox_messages run "
+                  "on symbolic mailboxes returns exactly the regions between separator lines; (K2) the real "
+                  "iterate_supported_attachments + router run on symbolic attachment names and MIME types with recording "
+                  "extractors (name first, then MIME, skip, encrypted re-raise, rewind); (K3r) the MSG recipient parser "
+                  "runs lifted on symbolic display names; (K3e/K3g/K3m) field plumbing of the three extractors on fake "
+                  "parser objects and on stdlib-generated messages, enumerated structurally.",
+    "level_note": "Trusted: the regex-to-formula translation (validated against re on every replayed model), C07's model of "
+                  "splitext, the lifting of string literals. Outside: RFC 2047 / charset / transfer decoding and the "
+                  "address grammar beyond the generated cases, eml-vs-mbox agreement on representation (date offset), "
+                  "real MSG/OLE parsing. Four genuine defects are recorded as known findings (attachment gate on MIME "
+                  "flag, MSG recipient split, mbox attachments never populated, escaped From_ line kept).",
+    "technique": "symbolic execution of the real functions on z3-backed byte/character proxies (symrun), regular "
+                 "expressions as position-set formulas or as a forking backtracking interpreter, solver-free structure "
+                 "enumeration for the plumbing kernels, concrete replay of every model",
+}
